@@ -235,9 +235,11 @@ func GenAction(t *rapid.T, bias GenBias) Action {
 			a.Kind = "deploy"
 			a.A = rapid.IntRange(0, 2).Draw(t, "variant")
 			a.S = rapid.SampledFrom([]string{"", "a", "b"}).Draw(t, "suffix")
+			a.B = rapid.SampledFrom([]int{0, 0, 1, 1, 2, 3}).Draw(t, "perm_profile")
 		case k == 11:
 			a.Kind, a.S = "invoke", "update"
 			a.N = rapid.Int64Range(0, 2).Draw(t, "variant")
+			a.B = rapid.SampledFrom([]int{0, 0, 0, 1, 2, 3}).Draw(t, "perm_profile")
 			a.From = a.A % 2 // deployers of the bootstrap contracts (update needs no particular witness in K, but keep it plausible)
 		case k == 12:
 			a.Kind, a.S = "invoke", "destroy"
@@ -288,6 +290,11 @@ func GenAction(t *rapid.T, bias GenBias) Action {
 	}
 	a.VUB = uint32(rapid.IntRange(0, 4).Draw(t, "vub"))
 	a.Scope = rapid.SampledFrom([]int{0, 0, 0, 1}).Draw(t, "scope")
+	// A governance / value action whose transaction faults after the action was performed: native caches, balances
+	// and storage it touched have to be as if it never ran (on the running node as well as on a restarted one).
+	if (fam == 0 || fam == 1) && rapid.IntRange(0, 11).Draw(t, "fail_after") == 0 {
+		a.Fail = true
+	}
 	return a
 }
 
